@@ -91,7 +91,7 @@ func main() {
 		pool = append(pool, crlT{lib.MintCRL(int64(k+1), now.Add(o), (k%7)*300), o > 0})
 	}
 
-	nSeq := r.N(2000, 40000)
+	nSeq := r.N(2000, 100000)
 	lib.Parallel(nSeq, 16, func(si int) {
 		rng := r.Rand(fmt.Sprintf("seq-%d", si))
 		base := lib.TempDir("c15seq")
@@ -220,7 +220,7 @@ func main() {
 	rootsMu.Unlock()
 
 	// ---- corruption probes
-	nCor := r.N(40, 400)
+	nCor := r.N(40, 1500)
 	lib.Parallel(nCor, 16, func(ci int) {
 		rng := r.Rand(fmt.Sprintf("cor-%d", ci))
 		base := lib.TempDir("c15cor")
